@@ -23,6 +23,9 @@ UNTIDY = {
     "empty-app": "A:\n    ...\nB:\n    e:\n        A <- nothing\n",
     "rest-and-simple": "A:\n    /x/{id <: int}:\n        GET ?q=string:\n            B <- e\n            return ok <: string\n    plain:\n        ...\nB:\n    e:\n        return ok\n",
     "passthrough-cycle": "A:\n    e:\n        P <- e\nP:\n    e:\n        Q <- e\nQ:\n    e:\n        P <- e\n",
+    "passthrough-cycle-hidden": "A:\n    e:\n        P <- e\nP:\n    e [~hidden]:\n        Q <- e\nQ:\n    e [~hidden]:\n        P <- e\n",
+    "passthrough-self-hidden": "A:\n    e:\n        P <- e\nP:\n    e [~hidden]:\n        . <- e\n",
+    "human-and-hidden": "User [~human]:\n    e:\n        A <- e\nA:\n    e:\n        User <- e\n        B <- h\nB:\n    h [~hidden]:\n        A <- e\n",
     "case-variant-call": "Target:\n    e:\n        ...\nA:\n    e:\n        target <- e\n",
     "rest-call-to-simple": "A:\n    e:\n        B <- GET y\nB:\n    y:\n        ...\n",
     "enum-and-union": "A:\n    !enum E:\n        X: 1\n    !type T:\n        e <: E\n    !union U:\n        T\n        Missing\n    /u:\n        GET:\n            return ok <: U\n",
